@@ -187,6 +187,60 @@ func runC01(p *Prog, r *Report, tier string) {
 			okT = w1 == 2 && w2 == 2
 		}
 		r.Check(okT, "R-LAYOUT.template", fnKey(dts)+": template record header (id u16, field count u16)", p.pos(dts.Pos()), "two big-endian uint16", "the template record header is not read as (template id, field count), 2 bytes each, big endian", true)
+		if okT {
+			// the first decoded variable is the template id (what the template is stored and reported under), the second the field count
+			loadOf := func(v ssa.Value, cell ssa.Value) bool {
+				u, ok := stripChange(v).(*ssa.UnOp)
+				return ok && u.Op == token.MUL && p.origin(u.X) == cell
+			}
+			idUses, idOK := 0, true
+			for _, g := range p.RepoFns {
+				if g != dts && g.Parent() != dts {
+					continue
+				}
+				eachInstr(g, func(in ssa.Instruction) {
+					c := callOf(in)
+					if c == nil {
+						return
+					}
+					n := calleeName(c)
+					idx := -1
+					switch {
+					case strings.HasSuffix(n, ").addTemplate"), strings.HasSuffix(n, ").deleteTemplate"):
+						idx = 2
+					case strings.HasSuffix(n, ".PrepareSet"):
+						idx = len(c.Args) - 1
+					case strings.HasSuffix(n, ".AddRecordV2"):
+						idx = len(c.Args) - 1
+					}
+					if idx < 0 || idx >= len(c.Args) {
+						return
+					}
+					idUses++
+					if !loadOf(c.Args[idx], ts[0]) {
+						idOK = false
+					}
+				})
+			}
+			cntOK := false
+			for _, g := range p.RepoFns {
+				if g != dts && g.Parent() != dts {
+					continue
+				}
+				eachInstr(g, func(in ssa.Instruction) {
+					if ms, ok := in.(*ssa.MakeSlice); ok {
+						if cv, ok := stripChange(ms.Len).(*ssa.Convert); ok && loadOf(cv.X, ts[1]) {
+							cntOK = true
+						} else if loadOf(ms.Len, ts[1]) {
+							cntOK = true
+						}
+					}
+				})
+			}
+			r.Check(idUses >= 3 && idOK && cntOK, "R-LAYOUT.template", fnKey(dts)+": first header field is the template id, second the field count", p.instrPos(first),
+				"the first decoded variable is what the template is stored/deleted/reported under; the second sizes the field list",
+				"the two header fields are used the other way round (or not at all): the template is stored under the field count", true)
+		}
 	}
 	var fr *ssa.Function
 	for _, f := range p.RepoFns {
@@ -328,6 +382,7 @@ func runC01(p *Prog, r *Report, tier string) {
 	}
 	r.Check(tcp && udp && nHU == 2, "R-OWNER.transports", "pkg/collector: all listeners decode through decodePacket", p.pos(dp.Pos()), "TCP/TLS reader and UDP + DTLS handlers (via handleUDPMessage) reach decodePacket",
 		fmt.Sprintf("not every transport delivers through the same decoder (tcp=%v udp=%v handleUDPMessage callers=%d)", tcp, udp, nHU), true)
+	checkDatagramPath(p, r, "R-LAYOUT.datagram")
 	// exporter: conn is whatever was dialled; one IPFIX writer (C09's owner rule), observation domain (C08's rule)
 	sender, call, bi := ipfixSender(p)
 	if sender == nil {
@@ -400,4 +455,118 @@ func ifCondNot(b *ssa.BasicBlock, cond ssa.Value) (bool, bool) {
 		}
 	}
 	return false, false
+}
+
+// checkDatagramPath: over UDP/DTLS the bytes decoded are exactly the bytes of one received datagram:
+// reader: handleUDPMessage(addr, b[0:n]) with n the count returned by the read into b (or a copy of exactly that);
+// dispatcher: the buffer sent to the client goroutine wraps exactly that slice; client: decodePacket gets the received buffer.
+func checkDatagramPath(p *Prog, r *Report, rule string) {
+	g := p.CallGraph()
+	hu := p.Fn("(*pkg/collector.CollectingProcess).handleUDPMessage")
+	dp := p.Fn("(*pkg/collector.CollectingProcess).decodePacket")
+	if hu == nil || dp == nil {
+		r.Undecided(rule, "anchor: handleUDPMessage / decodePacket", "pkg/collector", "not found")
+		return
+	}
+	// n is result #0 of a read call whose buffer argument is b
+	readInto := func(n ssa.Value, b ssa.Value) bool {
+		ex, ok := n.(*ssa.Extract)
+		if !ok || ex.Index != 0 {
+			return false
+		}
+		c, ok := ex.Tuple.(*ssa.Call)
+		if !ok {
+			return false
+		}
+		name := calleeName(&c.Call)
+		if !(strings.HasSuffix(name, ".Read") || strings.HasSuffix(name, ").ReadFromUDP") || strings.HasSuffix(name, ").ReadFrom")) {
+			return false
+		}
+		for _, a := range c.Call.Args {
+			if a == b {
+				return true
+			}
+		}
+		return false
+	}
+	exactPrefix := func(v ssa.Value) bool { // v == b[0:n] with n read into b
+		sl, ok := v.(*ssa.Slice)
+		if !ok || sl.High == nil {
+			return false
+		}
+		if sl.Low != nil {
+			if z, ok := constInt(sl.Low); !ok || z != 0 {
+				return false
+			}
+		}
+		return readInto(sl.High, sl.X)
+	}
+	for _, cs := range g.callers[hu] {
+		c := callOf(cs)
+		f := cs.Parent()
+		ok := false
+		if c != nil && len(c.Args) >= 3 {
+			a := c.Args[2]
+			if exactPrefix(a) {
+				ok = true
+			} else if ms, isMS := a.(*ssa.MakeSlice); isMS {
+				// a per-datagram copy: make([]byte, n); copy(dst, b[0:n])
+				eachInstr(f, func(in ssa.Instruction) {
+					if cc := callOf(in); cc != nil && calleeName(cc) == "builtin:copy" && cc.Args[0] == ssa.Value(ms) && exactPrefix(cc.Args[1]) {
+						if sl := cc.Args[1].(*ssa.Slice); sl.High == ms.Len {
+							ok = true
+						}
+					}
+				})
+			}
+		}
+		r.Check(ok, rule, fnKey(f)+": datagram handed to handleUDPMessage", p.instrPos(cs), "b[0:n] with n returned by the read into b (or a copy of exactly those bytes)",
+			"the bytes handed on are not exactly the bytes of the datagram that was read (wrong bound, other buffer, or a partial copy)", true)
+	}
+	// dispatcher wraps its parameter
+	okSend := false
+	eachInstr(hu, func(in ssa.Instruction) {
+		sel, ok := in.(*ssa.Select)
+		if !ok {
+			return
+		}
+		for _, st := range sel.States {
+			if st.Dir == types.SendOnly {
+				if nb, ok := st.Send.(*ssa.Call); ok && calleeName(&nb.Call) == "bytes.NewBuffer" && len(hu.Params) >= 3 && nb.Call.Args[0] == ssa.Value(hu.Params[2]) {
+					okSend = true
+				}
+			}
+		}
+	})
+	r.Check(okSend, rule, fnKey(hu)+": buffer sent to the client goroutine", p.pos(hu.Pos()), "bytes.NewBuffer(buf) of the datagram parameter", "the dispatcher does not hand the received datagram (as is) to the client goroutine", true)
+	// client decodes what it received
+	n := 0
+	for _, cs := range g.callers[dp] {
+		f := cs.Parent()
+		if !strings.Contains(fnKey(f), "createUDPClient") {
+			continue
+		}
+		n++
+		c := callOf(cs)
+		ok := false
+		if ex, isEx := c.Args[1].(*ssa.Extract); isEx {
+			if sel, isSel := ex.Tuple.(*ssa.Select); isSel {
+				// the extracted value belongs to a receive state on clientHandler.packetChan
+				idx := ex.Index - 2
+				k := 0
+				for _, st := range sel.States {
+					if st.Dir == types.RecvOnly {
+						if k == idx && p.chanIdent(st.Chan) == "field:pkg/collector.clientHandler.packetChan" {
+							ok = true
+						}
+						k++
+					}
+				}
+			}
+		}
+		r.Check(ok, rule, fnKey(f)+": buffer decoded by the client goroutine", p.instrPos(cs), "the value received from packetChan", "the client goroutine decodes something other than the buffer it received", true)
+	}
+	if n == 0 {
+		r.Undecided(rule, "anchor: UDP client call of decodePacket", "pkg/collector/udp.go", "not found")
+	}
 }
